@@ -217,10 +217,13 @@ def work(item):
     except AttributeError:
         pass
     try:
-        {"rt": _w_rt, "refuse": _w_refuse, "keys": _w_keys}[kind](res, p)
+        {"rt": _w_rt, "refuse": _w_refuse, "keys": _w_keys, "keys-sym": _w_keys_sym}[kind](res, p)
     except Refuse as e:
         res.ob(1)
         res.inconc(f"translation refused: {e}")
+    except _ST().Inconclusive as e:
+        res.ob(1)
+        res.inconc(str(e))
     return res.as_dict()
 
 
@@ -390,6 +393,225 @@ def keys_bad(p):
 
 
 # ---------------------------------------------------------------------------
+# natural keys on symbolic digit groups (duck-typed execution of the real key functions)
+
+
+class DigitStr:
+    """a string of decimal digits with CONCRETE length and SYMBOLIC digits (z3 Ints in 0..9)"""
+
+    def __init__(self, digits):
+        self.d = list(digits)  # z3 Int terms or Python ints
+
+    def isdigit(self):
+        return len(self.d) > 0
+
+    def isdecimal(self):
+        return len(self.d) > 0
+
+    isnumeric = isdecimal
+
+    def __len__(self):
+        return len(self.d)
+
+    def zfill(self, k):
+        return DigitStr([0] * max(0, int(k) - len(self.d)) + self.d)
+
+    def rjust(self, k, fill=" "):
+        if fill != "0":
+            raise _ST().Inconclusive("rjust with a non-digit fill on a symbolic digit group")
+        return self.zfill(k)
+
+    def value(self):
+        v = z3.IntVal(0)
+        for x in self.d:
+            v = v * 10 + x
+        return v
+
+    def _lex(self, o, strict_less):
+        """lexicographic order of two digit strings as a z3 Bool"""
+        if isinstance(o, str):
+            if not o.isdigit():
+                # digits sort before letters/underscore/brackets used in names; decide concretely on the first char
+                raise _ST().Inconclusive("comparison of a symbolic digit group with a non-digit string")
+            o = DigitStr([int(ch) for ch in o])
+        if not isinstance(o, DigitStr):
+            return NotImplemented
+        a, b = self.d, o.d
+        res = z3.BoolVal(len(a) < len(b)) if strict_less else z3.BoolVal(len(a) == len(b))
+        for i in reversed(range(min(len(a), len(b)))):
+            ai, bi = z3.IntVal(a[i]) if isinstance(a[i], int) else a[i], z3.IntVal(b[i]) if isinstance(b[i], int) else b[i]
+            res = z3.If(ai == bi, res, ai < bi) if strict_less else z3.And(ai == bi, res)
+        return _ST().SB(z3.simplify(res))
+
+    def __lt__(self, o):
+        return self._lex(o, True)
+
+    def __eq__(self, o):
+        if isinstance(o, str) and not o.isdigit():
+            return False
+        if isinstance(o, SymInt):
+            return NotImplemented
+        return self._lex(o, False)
+
+    def __gt__(self, o):
+        return o.__lt__(self) if isinstance(o, DigitStr) else NotImplemented
+
+    def __hash__(self):
+        return 23
+
+    def __str__(self):
+        return "<digits>"
+
+
+class SymInt:
+    """the integer a digit group denotes (what int(text) returns under the module-level shadow of int)"""
+
+    def __init__(self, z):
+        self.z = z
+
+    def _c(self, o, f):
+        if isinstance(o, SymInt):
+            return _ST().SB(f(self.z, o.z))
+        if isinstance(o, int) and not isinstance(o, bool):
+            return _ST().SB(f(self.z, z3.IntVal(o)))
+        return NotImplemented
+
+    def __lt__(self, o):
+        return self._c(o, lambda a, b: a < b)
+
+    def __gt__(self, o):
+        return self._c(o, lambda a, b: a > b)
+
+    def __le__(self, o):
+        return self._c(o, lambda a, b: a <= b)
+
+    def __ge__(self, o):
+        return self._c(o, lambda a, b: a >= b)
+
+    def __eq__(self, o):
+        r = self._c(o, lambda a, b: a == b)
+        return False if r is NotImplemented else r
+
+    def __hash__(self):
+        return 29
+
+
+def _ST():
+    from .. import symtrace
+
+    return symtrace
+
+
+def _shadow_int(x=0, *a):
+    import builtins
+
+    if isinstance(x, DigitStr):
+        return SymInt(x.value())
+    return builtins.int(x, *a)
+
+
+class _ReSplitStub:
+    """re.split(r"(\\d+)", name) for names of the shape <prefix><digits><suffix> with digit-free prefix/suffix: the stub
+    returns what the regex returns on such a name, [prefix, digits, suffix]; everything else goes to the real re."""
+
+    def __init__(self, real):
+        self._re = real
+
+    def __getattr__(self, n):
+        return getattr(self._re, n)
+
+    def split(self, pattern, string, *a, **kw):
+        if isinstance(string, SymName):
+            if pattern != r"(\d+)" or a or kw:
+                raise _ST().Inconclusive(f"re.split called with pattern {pattern!r} / extra arguments: shape not covered by the stub")
+            return [string.prefix, string.digits, string.suffix]
+        return self._re.split(pattern, string, *a, **kw)
+
+
+class SymName:
+    def __init__(self, prefix, digits, suffix=""):
+        self.prefix, self.digits, self.suffix = prefix, digits, suffix
+
+
+class _Sym:
+    def __init__(self, name):
+        self.name = name
+
+
+def _w_keys_sym(res, p):
+    """natural_key / natural_key_revlex on names <prefix><digits><suffix> whose digit group is symbolic: for digit
+    groups of lengths (ls, lt) and ALL digit values, key(s) < key(t) iff int(s) < int(t)."""
+    ST = _ST()
+    from orquestra.quantum.circuits.symbolic import _sorting as SO
+
+    ls, lt, pre, suf = p["ls"], p["lt"], p["prefix"], p.get("suffix", "")
+    ds = [z3.Int(f"s{i}") for i in range(ls)]
+    dt = [z3.Int(f"t{i}") for i in range(lt)]
+    base = [z3.And(x >= 0, x <= 9) for x in ds + dt]
+    if ls > 1:
+        base.append(ds[0] >= 1)
+    if lt > 1:
+        base.append(dt[0] >= 1)
+    names = {str(x): x for x in ds + dt}
+    records = []
+    res.nontrivial()
+    res.d["cuts"] += ["_sorting.re.split replaced by a stub returning [prefix, digits, suffix] for names of that shape", "_sorting.int shadowed: int(digit group) is the symbolic integer it denotes"]
+
+    def fn(ex):
+        s, t = DigitStr(ds), DigitStr(dt)
+        vs, vt = s.value(), t.value()
+        for fname in ("natural_key", "natural_key_revlex"):
+            f = getattr(SO, fname)
+            try:
+                ks, kt = f(_Sym(SymName(pre, s, suf))), f(_Sym(SymName(pre, t, suf)))
+            except (TypeError, AttributeError) as e:
+                # the key function did not reach the stubbed re.split with the symbolic name (e.g. a precompiled
+                # pattern object, str methods on the name): this harness does not apply - never a verdict
+                raise ST.Inconclusive(f"key function not executable on a symbolic name: {type(e).__name__}: {str(e)[:80]}")
+            less = bool(ks < kt)
+            records.append((f"{fname}-orders-numerically",) + ex.prove((vs < vt) if less else z3.Not(vs < vt)))
+        return None
+
+    with ST.patched((SO, "re", _ReSplitStub(SO.re)), (SO, "int", _shadow_int)):
+        ex = ST.Explorer(base=base, timeout_ms=8000, max_paths=400)
+        outs = ex.run(fn)
+    res.d["paths"] += ex.npaths
+    res.d["solver_queries"] += ex.queries
+    res.d["solver_s"] += ex.solver_s
+    for o in outs:
+        if o[0] == "exc":
+            res.ob(1)
+            m = o[2] if len(o) > 2 else None
+            vals = {k: ST.model_value(m, z) for k, z in names.items()} if m is not None else {}
+            res.candidate("natural-order-symbolic", f"{p['label']}: comparing the keys raised {type(o[1]).__name__}: {str(o[1])[:100]}", dict(p, clause="natural-order-symbolic", values=vals), sub="raises")
+    for clause, v, m in records:
+        res.ob(1)
+        if v == "holds":
+            res.ob(0, 1, "A:z3")
+        elif v == "violated":
+            vals = {k: ST.model_value(m, z) for k, z in names.items()} if m is not None else {}
+            res.candidate("natural-order-symbolic", f"{p['label']}: {clause} fails", dict(p, clause="natural-order-symbolic", values=vals), sub=clause)
+        else:
+            res.inconc("z3 unknown", clause)
+
+
+def keys_sym_bad(p, vals):
+    from orquestra.quantum.circuits.symbolic._sorting import natural_key, natural_key_revlex
+
+    s = "".join(str(int(vals.get(f"s{i}", 1))) for i in range(p["ls"]))
+    t = "".join(str(int(vals.get(f"t{i}", 1))) for i in range(p["lt"]))
+    a, b = sympy.Symbol(p["prefix"] + s + p.get("suffix", "")), sympy.Symbol(p["prefix"] + t + p.get("suffix", ""))
+    for f in (natural_key, natural_key_revlex):
+        try:
+            less = f(a) < f(b)
+        except Exception as e:
+            return f"{f.__name__}({a}) < {f.__name__}({b}) raised {type(e).__name__}: {e}"
+        if less != (int(s) < int(t)):
+            return f"{f.__name__} says {a} < {b} is {less}, numerically {int(s)} < {int(t)} is {int(s) < int(t)}"
+    return None
+
+
+# ---------------------------------------------------------------------------
 # grammar
 
 
@@ -495,6 +717,13 @@ def instances(tier, seed):
         items.append(("keys", {"prefix": pre, "other": other, "limit": lim, "label": f"names {pre}<n>"}))
     for pre, sep in (("x_", "_"), ("t", "s"), ("beta[", "]["), ("", "_")):
         items.append(("keys", {"prefix": pre, "sep": sep, "limit": lim, "label": f"names {pre}<a>{sep}<b>"}))
+    L = 10 if tier == "quick" else 18
+    for ls in range(1, L + 1):
+        for lt in range(1, L + 1):
+            if tier == "quick" and abs(ls - lt) > 2 and not stable_pick((ls, lt), 4, seed):
+                continue
+            for pre, suf in (("beta_", ""), ("x", "]")) if (ls + lt) % 2 == 0 or tier == "thorough" else (("beta_", ""),):
+                items.append(("keys-sym", {"ls": ls, "lt": lt, "prefix": pre, "suffix": suf, "label": f"{pre}<{ls} digits>{suf} vs {pre}<{lt} digits>{suf}"}))
     return items
 
 
@@ -544,6 +773,9 @@ def replay(data):
             return bool(bad), bad or "refused"
         if clause == "natural-order":
             bad = keys_bad(inp)
+            return bool(bad), bad or "ok"
+        if clause == "natural-order-symbolic":
+            bad = keys_sym_bad(inp, inp.get("values") or {})
             return bool(bad), bad or "ok"
         e = sympy.sympify(inp["expr"], locals=_LOC)
         try:
